@@ -88,11 +88,19 @@ func c06Config(name, policy, codec string) *seqx.Config {
 var c06Cfgs = []struct{ name, policy, codec string }{
 	{"allow/default", "allow", "default"}, {"denyB/default", "denyB", "default"}, {"denyP3/default", "denyP3", "default"},
 	{"allow/linkkey", "allow", "linkkey"}, {"allow/pb", "allow", "pb"}, {"allow-same-writer/default", "allow-same-writer", "default"},
+	// logs configured with a concurrency of 1 and 2: whatever Join does "per batch" happens after every entry / every two
+	{"allow/default/conc1", "allow", "default"}, {"allow/default/conc2", "allow", "default"},
 }
 
 func init() {
 	for _, c := range c06Cfgs {
 		cfg := c06Config(c.name, c.policy, c.codec)
+		switch {
+		case strings.HasSuffix(c.name, "/conc1"):
+			cfg.Conc = 1
+		case strings.HasSuffix(c.name, "/conc2"):
+			cfg.Conc = 2
+		}
 		Configs[c.name] = cfg
 	}
 }
@@ -116,6 +124,14 @@ func unchanged(w *seqx.World, pre *seqx.Pre, r int) string {
 	}
 	if l.Len() != pre.Len[r] {
 		return "Len() changed"
+	}
+	// the entry index itself (Get/Has/GetEntries see it even when Values() does not reach an entry)
+	var held []string
+	for _, e := range pre.Entries[r] {
+		held = append(held, e.GetHash().String())
+	}
+	if !eqStrings(sortedStrings(hashesOf(l.GetEntries().Slice())), sortedStrings(held)) {
+		return "GetEntries() changed"
 	}
 	return ""
 }
